@@ -2,22 +2,27 @@ import AiocoapModel.Basic.Bytes
 import AiocoapModel.Blockwise.BlockOpt
 import AiocoapModel.Blockwise.TimeoutDict
 /-!
-Model of the block-wise server machinery (after the three `fix:` commits of C06):
+Model of the block-wise server machinery, as of the three `fix:` commits of C06 on top of the
+pinned snapshot (ValueError → 4.08; later block never answered with the complete body; stale
+rendering dropped when a newer complete response is sent):
 
 * `_extract_block_key`                     aiocoap/blockwise.py:18-35
+  (`remote.blockwise_key` of the UDP remote: transports/udp6.py:263-265)
 * `Message.get_cache_key`                  aiocoap/message.py:382-415
+* `Message._extract_block`                 aiocoap/message.py:422-443
 * `Message._append_request_block`          aiocoap/message.py:445-472
-* `Message._extract_block`                 aiocoap/message.py:421-443
 * `Block1Spool.feed_and_take`              aiocoap/blockwise.py:60-92
 * `Block2Cache.extract_or_insert`          aiocoap/blockwise.py:95-156
 * `Resource._render_to_pipe`               aiocoap/interfaces.py:416-444
 * rendering of the exceptions that leave `_render_to_pipe`
-  (`ContinueException.to_message`, `ConstructionRenderableError.to_message`;
+  (`ContinueException.to_message`, `ConstructionRenderableError.to_message`,
    `pipe.error_to_message`)               aiocoap/blockwise.py:38-57, error.py:82-99, pipe.py:232-285
 
 One request is processed atomically (the handler does not yield to another request of
 the same resource while it renders); a handler is a total function from the assembled
-request to a response message.
+request to a response message.  Not modelled: token / message id / message type of the stored
+request (`_append_request_block` copies them from the latest block), the diagnostic payload of
+error responses, `ObservableResource._render_to_pipe`.
 -/
 namespace Aiocoap.BwServer
 
